@@ -1,7 +1,7 @@
 (* C39 -- theorems about the generated body of hy_eval_user (all oracles, all heaps,
    all argument values, all call sequences), assembled from the case files. *)
 From HyV Require Import State.EvalRestoreTactics State.EvalRestoreParam State.EvalRestoreCaseG State.EvalRestoreCaseL
-  State.EvalRestoreCaseGL State.EvalRestoreCaseNone.
+  State.EvalRestoreCaseGL State.EvalRestoreCaseNone State.EvalRestoreCaseNoneM.
 
 (* the generated parameter list: one required parameter, every other one defaults to None,
    so "not given" and "given as None" are the same call *)
@@ -32,7 +32,10 @@ Theorem hy_eval_user_call O (F : frame_ok O) m vg vl vm vmac h log :
   post_value O m vg vl vmac r /\ (given vg \/ given vl -> post_restore h r).
 Proof.
   intros [->|(g & kg & -> & Hg)] [->|(l & kl & -> & Hl)] r; subst r.
-  - split; [apply user_sound, case_none; exact F | intros [G|G]; exfalso; apply G; reflexivity].
+  - split; [| intros [G|G]; exfalso; apply G; reflexivity].
+    apply user_sound.
+    destruct vm; try (apply case_none_module; [exact F | reflexivity]).
+    apply case_none_nomodule; exact F.
   - destruct (user_sound _ _ _ _ _ _ _ _ (case_locals_only O F l kl m vm vmac h log Hl)) as [A B].
     split; [exact A | intros _; exact B].
   - destruct (user_sound _ _ _ _ _ _ _ _ (case_globals_only O F g kg m vm vmac h log Hg)) as [A B].
